@@ -504,6 +504,8 @@ class MemOrchestrator(BaseOrchestrator):
 
         :param InvocationId invocation_id: The ID of the invocation for which the retry count is to be increased.
         """
+        if invocation_id not in self.invocation_status_record:
+            return  # nothing is counted for an id nobody registered
         self.invocation_retries[invocation_id] = (
             self.invocation_retries.get(invocation_id, 0) + 1
         )
